@@ -81,9 +81,21 @@ def joinSet (J : EP K) : List (P K) := [sPrev J.neg, sNext J.neg, sPrev J.pos, s
 /-- the first point of the sub-path after `line_to (pt 1)` -/
 noncomputable def fPt (e : Env K) (pt : Nat → P K) : EP K := firstPt e 0 1 (pt 0) (pt 1)
 
+/-- the window part of the invariant (`TInv` of `Lemmas/StrokeIdxTris.lean` without the vertex / triangle count, which
+does not hold with round joins) -/
+structure TInvR (e : Env K) (st : St K) (a b : EP K) : Prop where
+  wf : WF st.buf
+  two : st.buf.lastTwo = some (a, b)
+  fresh : Fresh e b
+  bfp : b.foldPos = false
+  bfn : b.foldNeg = false
+  first : st.buf.count = 2 → a.foldPos = false ∧ a.foldNeg = false
+  full : st.buf.count > 2 → Sides2 st.out.nextId a.ids
+    ∧ ∃ f0 f1, st.firsts = [f0, f1] ∧ f0.foldPos = false ∧ f0.foldNeg = false ∧ Sides2 st.out.nextId f1.ids
+
 /-- the loop invariant (see the header) -/
 structure CInv (e : Env K) (pt : Nat → P K) (k : Nat) (st : St K) (a b : EP K) : Prop where
-  t : TInv e st a b
+  t : TInvR e st a b
   next : st.out.nextId = st.out.verts.length
   apos : a.position = pt (k - 1)
   bpos : b.position = pt k
@@ -99,9 +111,10 @@ structure CInv (e : Env K) (pt : Nat → P K) (k : Nat) (st : St K) (a b : EP K)
   joins : ∀ i, 1 ≤ i → i < k → EmJoin st.out (jEP e pt i)
   only : ∀ t ∈ st.out.tris, (∃ i, 1 ≤ i ∧ i + 1 < k ∧ TriIn st.out (quadSet (jEP e pt i) (jEP e pt (i + 1))) t)
     ∨ (∃ i, 1 ≤ i ∧ i < k ∧ TriIn st.out (joinSet (jEP e pt i)) t)
+    ∨ (∃ i, 1 ≤ i ∧ i < k ∧ TriFan st.out (joinSet (jEP e pt i)) (pt i) (e.hwFw * e.hwFw) t)
 
 /-- one `line_to` keeps the invariant -/
-theorem fwStep_cinv_gen {e : Env K} (hj : e.o.join ≠ .round) (hw0 : e.hwFw ≠ 0) {pt : Nat → P K} {k : Nat}
+theorem fwStep_cinv_gen {e : Env K} (hj : RoundOK e) (hw0 : e.hwFw ≠ 0) {pt : Nat → P K} {k : Nat}
     {st : St K} {a b : EP K} (hI : CInv e pt k st a b)
     (next : EP K) (hnp : next.position = pt (k + 1)) (hnfresh : Fresh e next)
     (hnfp : next.foldPos = false) (hnfn : next.foldNeg = false)
@@ -113,8 +126,6 @@ theorem fwStep_cinv_gen {e : Env K} (hj : e.o.join ≠ .round) (hw0 : e.hwFw ≠
   have hk1 := hI.k1
   have hfar' : pointsAreTooClose e.thr b.position next.position = false := by rw [hI.bpos, hnp]; exact hfar
   have hnf' : noFoldAt e a.position b.position next.position := by rw [hI.apos, hI.bpos, hnp]; exact hnf
-  -- the discrete invariant
-  obtain ⟨b', hT, hbp, _⟩ := fwStep_join_tris hj hI.t next hnfresh hnfp hnfn hfar' hnf'
   -- the shape of the join
   have hlast := hI.t.wf.lastTwo_last _ _ hI.t.two
   have hclose : st.tooClose e.thr next.position = false := by rw [tooClose_eq hlast]; exact hfar'
@@ -142,33 +153,32 @@ theorem fwStep_cinv_gen {e : Env K} (hj : e.o.join ≠ .round) (hw0 : e.hwFw ≠
   have hgeo2 : EP.geo j2 = EP.geo (jEP e pt k) := by
     rw [← hgeo1]
     simp only [EP.geo, sgeo, hS.gPos.1, hS.gPos.2.1, hS.gPos.2.2, hS.gNeg.1, hS.gNeg.2.1, hS.gNeg.2.2]
-  -- identify `b'` with `j2`
-  have hb' : b' = j2 := by
-    have h1 := hT.two
-    rw [hstate] at h1
-    have hc2 := WF.lastTwo_count _ _ hI.t.two
-    obtain ⟨b1, hb1, hwf1, hc1, hl1, _⟩ := hI.t.wf.replaceLast (by omega) j2
-    obtain ⟨b2, hb2, hwf2, _, _, hlt2⟩ := hwf1.push next
-    have : ((st.setLast j2).push next).buf = b2 := by simp [St.push, St.setLast, hb1, hb2]
-    simp only [this] at h1
-    rw [hlt2 _ hl1] at h1
-    simp only [Option.some.injEq, Prod.mk.injEq] at h1
-    exact h1.1.symm
-  subst hb'
+  -- the window after the step
+  have hc2 := WF.lastTwo_count _ _ hI.t.two
+  have hle3 := hI.t.wf.count_le
+  obtain ⟨bb1, hb1, hwf1, hc1, hl1, _⟩ := hI.t.wf.replaceLast (by omega) j2
+  obtain ⟨bb2, hb2, hwf2, hcnt2, _, hlt2⟩ := hwf1.push next
+  have hbuf : (fwStep e st next).1.buf = bb2 := by rw [hstate]; simp [St.push, St.setLast, hb1, hb2]
   have hout : (fwStep e st next).1.out = o' := by rw [hstate]
-  have hfirsts : (fwStep e st next).1.firsts = if st.buf.count == 2 then [a, b'] else st.firsts := by rw [hstate]
-  have hcnt : (fwStep e st next).1.buf.count = 3 := by
-    have h3 := hT.wf.count_le
-    have := hT.euler
-    by_contra hne
-    have h2 : 2 ≤ (fwStep e st next).1.buf.count := WF.lastTwo_count _ _ hT.two
-    have hc : (fwStep e st next).1.buf.count = 2 := by omega
-    obtain ⟨b1, hb1, hwf1, hc1, hl1, _⟩ := hI.t.wf.replaceLast (by have := WF.lastTwo_count _ _ hI.t.two; omega) b'
-    obtain ⟨b2, hb2, hwf2, hcn, _, _⟩ := hwf1.push next
-    have : (fwStep e st next).1.buf = b2 := by rw [hstate]; simp [St.push, St.setLast, hb1, hb2]
-    rw [this, hcn, hc1] at hc
-    have := WF.lastTwo_count _ _ hI.t.two
-    omega
+  have hfirsts : (fwStep e st next).1.firsts = if st.buf.count == 2 then [a, j2] else st.firsts := by rw [hstate]
+  have hcnt : (fwStep e st next).1.buf.count = 3 := by rw [hbuf, hcnt2, hc1]; omega
+  have hle : st.out.nextId ≤ o'.nextId := by rw [hI.next, hS.next]; exact hS.ext.len_le
+  have hbp : j2.position = b.position := by
+    rw [hS.pos, ← hj1]; exact (joinSidesFw_singles e.ix a b next e.o.miterLimit e.hwFw hI.t.fresh.ps hI.t.fresh.ns).2.1
+  have hT : TInvR e (fwStep e st next).1 j2 next := by
+    refine ⟨by rw [hbuf]; exact hwf2, by rw [hbuf]; exact hlt2 _ hl1, hnfresh, hnfp, hnfn, fun h => by omega, fun _ => ?_⟩
+    rw [hout, hfirsts]
+    refine ⟨hS.sides, ?_⟩
+    by_cases h2 : st.buf.count = 2
+    · obtain ⟨r1, r2⟩ := hI.t.first h2
+      simp only [h2, beq_self_eq_true, if_true]
+      exact ⟨a, j2, rfl, r1, r2, hS.sides⟩
+    · have hne : (st.buf.count == 2) = false := by simpa using h2
+      obtain ⟨_, f0, f1, ef, g1, g2, g3⟩ := hI.t.full (by omega)
+      simp only [hne, Bool.false_eq_true, if_false]
+      exact ⟨f0, f1, ef, g1, g2, g3.mono hle⟩
+  obtain ⟨b', hb'⟩ : ∃ b', b' = j2 := ⟨_, rfl⟩
+  rw [← hb'] at hT hfirsts hbp hgeo2 hS
   refine ⟨b', ⟨hT, by rw [hout]; exact hS.next, by rw [hbp, hI.bpos]; rfl, hnp, by omega, ?_, ?_, ?_, ?_, ?_, ?_, ?_⟩,
     fun h3 => by rw [hfirsts, h3]; rfl, by rw [hout]; exact hS.ext, by rw [fwStep_eq_join hclose hI.t.two]⟩
   · rw [hcnt, if_neg (by omega)]
@@ -224,10 +234,11 @@ theorem fwStep_cinv_gen {e : Env K} (hj : e.o.join ≠ .round) (hw0 : e.hwFw ≠
     obtain ⟨ts, ets, hts⟩ := hS.trisNew
     rw [ets] at ht
     rcases List.mem_append.mp ht with ht | ht
-    · rcases hI.only t ht with ⟨i, a1, a2, a3⟩ | ⟨i, a1, a2, a3⟩
+    · rcases hI.only t ht with ⟨i, a1, a2, a3⟩ | ⟨i, a1, a2, a3⟩ | ⟨i, a1, a2, a3⟩
       · exact Or.inl ⟨i, a1, by omega, a3.ext hS.ext⟩
-      · exact Or.inr ⟨i, a1, by omega, a3.ext hS.ext⟩
-    · rcases hts t ht with ⟨h3, hq⟩ | hq
+      · exact Or.inr (Or.inl ⟨i, a1, by omega, a3.ext hS.ext⟩)
+      · exact Or.inr (Or.inr ⟨i, a1, by omega, a3.ext hS.ext⟩)
+    · rcases hts t ht with ⟨h3, hq⟩ | hq | hq
       · left
         have hk2 : 2 ≤ k := by
           by_contra hlt
@@ -240,13 +251,24 @@ theorem fwStep_cinv_gen {e : Env K} (hj : e.o.join ≠ .round) (hw0 : e.hwFw ≠
         unfold quadSet
         rw [← geo_sNext_neg g, ← geo_sNext_pos g, ← geo_sPrev_pos hgeo1, ← geo_sPrev_neg hgeo1]
         exact hq
-      · right
+      · right; left
         refine ⟨k, hk1, by omega, ?_⟩
         unfold joinSet
         rw [← geo_sPrev_neg hgeo1, ← geo_sNext_neg hgeo1, ← geo_sPrev_pos hgeo1, ← geo_sNext_pos hgeo1]
         exact hq
+      · right; right
+        refine ⟨k, hk1, by omega, ?_⟩
+        unfold joinSet
+        rw [← geo_sPrev_neg hgeo1, ← geo_sNext_neg hgeo1, ← geo_sPrev_pos hgeo1, ← geo_sNext_pos hgeo1]
+        have hpj : j1.position = pt k := by
+          rw [← hj1]
+          rw [(joinSidesFw_singles e.ix a b next e.o.miterLimit e.hwFw hI.t.fresh.ps hI.t.fresh.ns).2.1]; exact hI.bpos
+        have hwj : j1.halfWidth = e.hwFw := by
+          rw [← hj1, joinSidesFw_hw]; exact hI.t.fresh.hw
+        rw [hpj, hwj] at hq
+        exact hq
 
-theorem fwStep_cinv {e : Env K} (hj : e.o.join ≠ .round) (hw0 : e.hwFw ≠ 0) {pt : Nat → P K} {k : Nat}
+theorem fwStep_cinv {e : Env K} (hj : RoundOK e) (hw0 : e.hwFw ≠ 0) {pt : Nat → P K} {k : Nat}
     {st : St K} {a b : EP K} (hI : CInv e pt k st a b)
     (hfar : pointsAreTooClose e.thr (pt k) (pt (k + 1)) = false)
     (hnf : noFoldAt e (pt (k - 1)) (pt k) (pt (k + 1))) :
@@ -261,7 +283,7 @@ theorem restPts_succ (pt : Nat → P K) (k m : Nat) : restPts pt k (m + 1) = (k,
   simp [restPts, List.range'_succ]
 
 /-- the `line_to` loop keeps the invariant -/
-theorem feed_cinv {e : Env K} (hj : e.o.join ≠ .round) (hw0 : e.hwFw ≠ 0) {pt : Nat → P K} (m : Nat) :
+theorem feed_cinv {e : Env K} (hj : RoundOK e) (hw0 : e.hwFw ≠ 0) {pt : Nat → P K} (m : Nat) :
     ∀ (k : Nat) (st : St K) (a b : EP K), CInv e pt k st a b →
       (∀ i, k ≤ i → i < k + m → pointsAreTooClose e.thr (pt i) (pt (i + 1)) = false) →
       (∀ i, k ≤ i → i < k + m → noFoldAt e (pt (i - 1)) (pt i) (pt (i + 1))) →
